@@ -588,6 +588,13 @@ pub fn run_named(cfg: &Cfg, name: &str) {
                 cases.push(format!("reg first {f}"));
             }
         }
+        // invalid names of every size up to what a registration frame can carry: the refusal is sent whatever it has to say
+        let max = 1usize << 20;
+        for l in [65usize, 4096, 70_000, max - 64, max - 50, max - 42, max - 36, max - 30, max - 26] {
+            cases.push(format!("reg first RR {ok_ns} ~{l}*61"));
+            // (a subscriber's registration carries 16 bytes more than a replier's: keep it within what the raw peer can encode)
+            if l % 2 == 0 && l <= max - 42 { cases.push(format!("reg first RS {ok_ns} ~{l}*61 0 -")); cases.push(format!("reg first RQ {ok_ns} ~{l}*61")); }
+        }
         for a in ["RP", "RS", "RR", "RQ"] { for b in ["RP", "RS", "RR", "RQ"] { cases.push(format!("reg mismatch {a} {b}")); } }
         for frames in ["OK", "E~3~-", "B~616263", "RP~7665726966~6162636465~0~-", "M~none~-;OK;M~none~68", "RR~7665726966~6162636465"] {
             cases.push(format!("reg abuse RP {frames}"));
